@@ -47,6 +47,9 @@ static struct { void *p; int kind; } cells[8192];
 static int ncells = 0;
 
 static long base[7];
+static program_t *uobj_prog = 0;	/* program of /c06/uobj: its ref is printed as p: */
+static object_t **anon = 0;		/* clones made by `clones n` */
+static int nanon = 0, capanon = 0;
 
 static void snapshot (long *o)
 {
@@ -160,12 +163,20 @@ static void print_state (const char *status)
     }
   snapshot (now);
   *o = 0;
-  if (lpc_mode || applied)
-    vh_out ("%s st:%ld,%ld,%ld,%ld,%ld,-,%ld", buf, now[0] - base[0], now[1] - base[1], now[2] - base[2],
-            now[3] - base[3], now[4] - base[4], now[6] - base[6]);
+  char pf[32];
+  if (!uobj_prog || poisoned (uobj_prog))
+    snprintf (pf, sizeof pf, "x");
   else
-    vh_out ("%s st:%ld,%ld,%ld,%ld,%ld,%ld,%ld", buf, now[0] - base[0], now[1] - base[1], now[2] - base[2],
-            now[3] - base[3], now[4] - base[4], now[5] - base[5], now[6] - base[6]);
+    snprintf (pf, sizeof pf, "%u", (unsigned) uobj_prog->ref);
+  if (pf[0] == 'x')
+    vh_out ("%s st:%ld,%ld,%ld,%ld,-,-,%ld p:%s", buf, now[0] - base[0], now[1] - base[1], now[2] - base[2],
+            now[3] - base[3], now[6] - base[6], pf);
+  else if (lpc_mode || applied)
+    vh_out ("%s st:%ld,%ld,%ld,%ld,%ld,-,%ld p:%s", buf, now[0] - base[0], now[1] - base[1], now[2] - base[2],
+            now[3] - base[3], now[4] - base[4], now[6] - base[6], pf);
+  else
+    vh_out ("%s st:%ld,%ld,%ld,%ld,%ld,%ld,%ld p:%s", buf, now[0] - base[0], now[1] - base[1], now[2] - base[2],
+            now[3] - base[3], now[4] - base[4], now[5] - base[5], now[6] - base[6], pf);
 }
 
 /* value of a slot points to freed memory? (the model's explicit use-after-free outcome) */
@@ -491,6 +502,17 @@ static int applicable (int n, char **t, int *a)
   if (!strcmp (op, "rmsent"))
     return n == 2 && a[1] >= 0 && a[1] < NSENT && sent_used[a[1]] && objok (sent_owner[a[1]])
       && hobj (sent_owner[a[1]]) == sent_ownerp[a[1]];
+  if (!strcmp (op, "clones"))
+    return n == 2 && !lpc_mode && a[1] > 0;
+  if (!strcmp (op, "unclone"))
+    {
+      if (n != 2 || lpc_mode || nanon < a[1])
+        return 0;
+      for (int o = 0; o < NOBJ; o++)
+        if (exist_used[o] == 2)
+          return 0;
+      return 1;
+    }
   if (!strcmp (op, "err"))
     return n == 3 && lpc_mode && SL (a[1]) && SL (a[2]);
   if (!strcmp (op, "efun"))
@@ -544,6 +566,7 @@ static int c06_cmd (char *line)
         object_t *tmp = clone_uobj ();	/* loads the program before the baseline is taken */
         if (tmp)
           {
+            uobj_prog = tmp->prog;
             destruct_object (tmp);
             remove_destructed_objects ();
           }
@@ -596,7 +619,40 @@ static int c06_cmd (char *line)
   const char *status = "ok";
   error_context_t econ;
   volatile int failed = 0;
-  if (!strcmp (t[0], "cleanup"))
+  if (!strcmp (t[0], "clones") || !strcmp (t[0], "unclone"))
+    {
+      /* program counter probe: n further clones of /c06/uobj, or n of them destructed + cleaned up one by one */
+      for (int i = 0; i < a[1]; i++)
+        {
+          if (!uobj_prog || poisoned (uobj_prog))
+            {
+              vh_out ("uaf");
+              halted = 1;
+              return 1;
+            }
+          if (t[0][0] == 'c')
+            {
+              object_t *ob = clone_uobj ();
+              if (!ob)
+                {
+                  vh_out ("harness-error clone");
+                  halted = 1;
+                  return 1;
+                }
+              if (nanon == capanon)
+                anon = (object_t **) realloc (anon, sizeof (object_t *) * (capanon = capanon ? capanon * 2 : 1024));
+              anon[nanon++] = ob;
+            }
+          else
+            {
+              destruct_object (anon[--nanon]);
+              remove_destructed_objects ();
+            }
+        }
+      if (t[0][0] == 'c')
+        applied = 1;
+    }
+  else if (!strcmp (t[0], "cleanup"))
     {
       remove_destructed_objects ();
       for (int o = 0; o < NOBJ; o++)
